@@ -106,7 +106,117 @@ fn compare(rep: &mut Report, a: &RunOut, b: &RunOut, sched: &str) {
 }
 
 pub fn run(args: &Args, rep: &mut Report) {
-    crate::dispatch_ma!(args.ma, run_m, args, rep)
+    crate::dispatch_ma!(args.ma, run_m, args, rep);
+    if args.ma == 1 {
+        vec_try_reserve_under_refusal(args, rep);
+    }
+}
+
+/// `Vec::try_reserve{,_exact}` against a refusing allocator or a reached limit: inside the spare
+/// capacity it is Ok without any allocator request and without moving; beyond it it is Ok (and the
+/// promise holds) or Err with the vector untouched, never a panic; once the fault is lifted it succeeds.
+fn vec_try_reserve_under_refusal(args: &Args, rep: &mut Report) {
+    use bumpalo::collections::Vec as BVec;
+    use bumpalo::Bump;
+    let mut rng = Rng::new(Rng::mix(args.seed ^ 0xC09C, args.shard));
+    let cases = if cfg!(miri) { 12 } else { 400 };
+    for case in 0..cases {
+        halloc::Env::PLAIN.apply(1);
+        let mut arena = if rng.chance(1, 2) { Bump::new() } else { Bump::with_capacity(rng.range(1, 600) as usize) };
+        let cap = rng.range(1, 40) as usize;
+        let len = rng.below(cap + 1);
+        let exact = rng.chance(1, 2);
+        let by_limit = rng.chance(1, 3);
+        rep.ctx = format!("C09 vec try_reserve case {} cap {} len {} exact {} by_limit {} (seed {} shard {})", case, cap, len, exact, by_limit, args.seed, args.shard);
+        let neighbour = rng.chance(2, 3);
+        let fill_chunk = rng.chance(1, 2);
+        if by_limit {
+            arena.set_allocation_limit(Some(arena.allocated_bytes().max(1)));
+        }
+        {
+            let a = &arena;
+            let mut v: BVec<u32> = BVec::new_in(a);
+            // building may itself need memory: no fault yet
+            a.set_allocation_limit(None);
+            v.reserve_exact(cap);
+            for i in 0..len {
+                v.push(i as u32 * 7 + 1);
+            }
+            if neighbour {
+                a.alloc(0x55u8);
+            }
+            if fill_chunk {
+                let room = a.chunk_capacity();
+                if room > 0 && room < (1 << 16) {
+                    a.alloc_slice_fill_copy(room, 0x66u8);
+                }
+            }
+            let spare = v.capacity() - v.len();
+            let k = match rng.below(4) {
+                0 => spare,
+                1 => rng.below(spare + 1),
+                2 => spare + 1,
+                _ => spare + rng.range(1, 200) as usize,
+            };
+            let (p0, c0) = (v.as_ptr() as usize, v.capacity());
+            let want: Vec<u32> = v.iter().copied().collect();
+            if by_limit {
+                a.set_allocation_limit(Some(a.allocated_bytes()));
+            } else {
+                halloc::set_refuse(Refuse::All);
+            }
+            halloc::op_begin();
+            let r = std::panic::catch_unwind(std::panic::AssertUnwindSafe(|| if exact { v.try_reserve_exact(k).is_ok() } else { v.try_reserve(k).is_ok() }));
+            let evs = halloc::op_end();
+            halloc::set_refuse(Refuse::None);
+            let asked = evs.iter().filter(|e| e.cand && e.kind == halloc::EV_ALLOC).count();
+            let name = if exact { "try_reserve_exact" } else { "try_reserve" };
+            rep.evaluations += 1;
+            rep.distinct.insert(fnv(fnv(cap as u64, len as u64), fnv(k as u64, (exact as u64) | (by_limit as u64) << 1 | (neighbour as u64) << 2 | (fill_chunk as u64) << 3)));
+            rep.bump("c09.vec_try_reserve_cases");
+            match r {
+                Err(_) => {
+                    let msg = last_panic();
+                    rep.violate("C09", format!("C09/try-method-panicked/vec::{}/{}", name, normalise_msg(&msg)), format!("{} ({})", msg, rep.ctx));
+                }
+                Ok(ok) => {
+                    if k <= spare {
+                        rep.bump("c09.vec_try_reserve_within_capacity");
+                        if !ok {
+                            rep.violate("C09", format!("C09/collections/vec::{}/request-inside-spare-capacity-failed", name), format!("spare {} additional {} ({})", spare, k, rep.ctx));
+                        }
+                        if asked != 0 || v.as_ptr() as usize != p0 || v.capacity() != c0 {
+                            rep.violate("C09", format!("C09/collections/vec::{}/request-inside-spare-capacity-was-not-a-no-op", name), format!("spare {} additional {}: {} allocator request(s), buffer {:#x} -> {:#x}, capacity {} -> {} ({})", spare, k, asked, p0, v.as_ptr() as usize, c0, v.capacity(), rep.ctx));
+                        }
+                    } else if ok {
+                        if v.capacity() < v.len() + k {
+                            rep.violate("C09", format!("C09/collections/vec::{}/ok-without-the-capacity", name), format!("len {} additional {} capacity {}", v.len(), k, v.capacity()));
+                        }
+                    } else {
+                        rep.bump("c09.vec_try_reserve_refused");
+                        if v.as_ptr() as usize != p0 || v.capacity() != c0 {
+                            rep.violate("C09", format!("C09/collections/vec::{}/failure-changed-the-vector", name), format!("buffer {:#x} -> {:#x}, capacity {} -> {}", p0, v.as_ptr() as usize, c0, v.capacity()));
+                        }
+                    }
+                    if v[..] != want[..] {
+                        rep.violate("C09", format!("C09/collections/vec::{}/contents-changed", name), String::new());
+                    }
+                    // fault lifted: the same request succeeds
+                    a.set_allocation_limit(None);
+                    if v.try_reserve(k).is_err() || v.capacity() < v.len() + k {
+                        rep.violate("C09", format!("C09/collections/vec::{}/later-request-that-fits-failed", name), format!("additional {}", k));
+                    }
+                    if v[..] != want[..] {
+                        rep.violate("C09", format!("C09/collections/vec::{}/contents-changed", name), "after the retry".to_string());
+                    }
+                }
+            }
+        }
+        arena.reset();
+        if rep.violations.len() >= rep.max_violations {
+            return;
+        }
+    }
 }
 
 fn run_m<const M: usize>(args: &Args, rep: &mut Report) {
